@@ -11,7 +11,9 @@ CHECK = {
     'assumptions': ['visitors do not modify the table except the erasing-visitor probe, which erases exactly the visited element (the tolerated case)',
                     'see C03'],
     'runs': [
-        {'harness': 'hash', 'mode': 'enum', 'sources': ['harness/hash.c'] + EX, 'configs': both(['dbg-asan'], ['dbg-asan', 'rel-asan', 'rel-plain']),},
+        {'harness': 'hash', 'mode': 'enum', 'sources': ['harness/hash.c'] + EX, 'configs': both(['dbg-asan', 'rel-asan'], ['dbg-asan', 'rel-asan', 'rel-plain']),
+         # quick: the release build (what is shipped: -O2 -DNDEBUG) on the closure scopes and the first random histories
+         'max_cases': {'rel-asan': {'quick': 260}}},
     ],
 }
 
